@@ -542,6 +542,21 @@ func TestVerifC16(t *testing.T) {
 		}
 	}
 	gen("", maxLen)
+	// sources of many lines: line numbers of 2, 3 and 4 digits (width of the gutter)
+	if r.Shard == 0 {
+		for _, n := range []int{12, 120, 1200} {
+			var b strings.Builder
+			for i := 1; i <= n; i++ {
+				fmt.Fprintf(&b, "l%d: x\n", i)
+			}
+			src := b.String()
+			for _, line := range []int{9, 10, 11, 12, 13, 99, 100, 101, 109, 110, 111, 120, 121, 999, 1000, 1001, 1099, 1100, 1200} {
+				for _, col := range []int{1, 3, 6} {
+					c16Snippet(r, src, line, col)
+				}
+			}
+		}
+	}
 	// long lines (buffer sizes of line readers: 4 KiB, 64 KiB): a snippet, when shown, is still the
 	// referenced line
 	if r.Shard == 0 {
@@ -646,6 +661,12 @@ func c16Snippet(r *vReport, src string, line, col int) {
 		r.Class("snippet:not-shown", true)
 		return
 	}
+	// the three snippet lines share one gutter: as wide as the line number plus a blank
+	gutter := strings.Repeat(" ", len(fmt.Sprint(line))+1)
+	if len(lines) >= 4 && (lines[1] != gutter+"|" || !strings.HasPrefix(lines[3], gutter+"| ")) {
+		r.Violation("snippet-gutter", fmt.Sprintf("source of %d lines at %d:%d: gutter lines %q / %q are not aligned with %q", len(srcLines), line, col, lines[1], lines[3], lines[2]), replay)
+		return
+	}
 	if len(lines) < 4 || lines[2] != fmt.Sprintf("%d | %s", line, ref) {
 		r.Violation("snippet-line", fmt.Sprintf("source %q at %d:%d: snippet line is %q, referenced line is %q", src, line, col, lines[2], ref), replay)
 		return
@@ -653,7 +674,7 @@ func c16Snippet(r *vReport, src string, line, col int) {
 	if col >= 1 && col-1 <= len(ref) {
 		if w, ok := c16Width(ref[:col-1]); ok {
 			caret := lines[3]
-			want := "  | " + strings.Repeat(" ", w) + "^"
+			want := gutter + "| " + strings.Repeat(" ", w) + "^"
 			if !strings.HasPrefix(caret, want) {
 				r.Violation("snippet-caret", fmt.Sprintf("source %q at %d:%d: caret line %q, expected the caret after %d columns", src, line, col, caret, w), replay)
 			}
